@@ -505,6 +505,8 @@ func factsC03(r *Repo) []Fact {
 			}
 		}
 	}
+	// ---- treatment of a done context (c03_cancel.go) ----
+	out = append(out, factsC03Cancel(r)...)
 	return out
 }
 
